@@ -64,22 +64,24 @@ class EmcyConsumer:
         :return: The EMCY exception object or None if timeout
         """
         end_time = time.time() + timeout
-        while True:
-            with self.emcy_received:
-                prev_log_size = len(self.log)
+        # Keep the lock between the iterations, so that no EMCY can be logged unseen
+        with self.emcy_received:
+            prev_log_size = len(self.log)
+            while True:
                 self.emcy_received.wait(timeout)
                 if len(self.log) == prev_log_size:
                     # Resumed due to timeout
                     return None
-                # Get last logged EMCY
-                emcy = self.log[-1]
-                logger.info("Got %s", emcy)
                 if time.time() > end_time:
                     # No valid EMCY received on time
                     return None
-                if emcy_code is None or emcy.code == emcy_code:
-                    # This is the one we're interested in
-                    return emcy
+                # Several EMCYs may have been logged since, look at them in order
+                for emcy in self.log[prev_log_size:]:
+                    logger.info("Got %s", emcy)
+                    if emcy_code is None or emcy.code == emcy_code:
+                        # This is the one we're interested in
+                        return emcy
+                prev_log_size = len(self.log)
 
 
 class EmcyProducer:
